@@ -160,6 +160,7 @@ def replay_schedule(M, kind, pids, evs, now):
         pidmap = {procs[p].pid: p for p in pids}
         pidmap[999999] = 99
         mism = []
+        foreign = []
         crit = set()
         max_overlap = 0
         for i, ev in enumerate(evs):
@@ -189,6 +190,10 @@ def replay_schedule(M, kind, pids, evs, now):
                 max_overlap = max(max_overlap, len(crit))
             real_lock = lock_class(sb, pidmap, now)
             model_lock = model_lock_class(tr[i + 1][0])
+            # direct oracle: a running holder's lock is never removed or replaced by another process
+            for h in list(crit):
+                if h != p and real_lock != ["valid", h]:
+                    foreign.append({"step": i, "by": p, "holder": h, "op": want, "lock_now": real_lock})
             if real_lock != model_lock:
                 mism.append({"step": i, "proc": p, "op": want, "model_lock": model_lock, "real_lock": real_lock})
                 break
@@ -210,7 +215,7 @@ def replay_schedule(M, kind, pids, evs, now):
             if isinstance(c, list) and c[0] == "done":
                 if (c[1] == "true") != results[p]["acquired"]:
                     mism.append({"proc": p, "model_acquired": c[1], "real": results[p]})
-        return {"mismatches": mism, "max_overlap_real": max_overlap, "max_overlap_model": model_crit_max,
+        return {"mismatches": mism, "foreign_removals": foreign, "max_overlap_real": max_overlap, "max_overlap_model": model_crit_max,
                 "results": results, "kind": kind}
 
 
@@ -270,6 +275,10 @@ def run(R):
     # the refutation schedule of the theorem first (two processes, stale lock)
     fixed = [("stale", [1, 2], [["step", 1], ["step", 2], ["step", 1], ["step", 1], ["step", 2], ["step", 2],
                                 ["step", 1], ["step", 1], ["step", 2], ["step", 2]])]
+    # both pass the existence check, one wins the creation, the loser must fail without touching the winner's lock
+    fixed.append(("absent", [1, 2], [["step", 1], ["step", 2], ["step", 1], ["step", 2], ["step", 1], ["step", 1], ["step", 1]]))
+    fixed.append(("absent", [1, 2, 3], [["step", 1], ["step", 2], ["step", 3], ["step", 2], ["step", 1], ["step", 3],
+                                        ["step", 2], ["step", 2], ["step", 2]]))
     cases = list(fixed)
     for i in range(nsched):
         kind = INIT_STATES[i % len(INIT_STATES)]
@@ -289,6 +298,12 @@ def run(R):
         if res["mismatches"]:
             dis.append({"why": "real processes did not follow the model schedule", "init": kind, "pids": pids,
                         "schedule": evs, "mismatches": res["mismatches"][:4]})
+        if res.get("foreign_removals"):
+            if kind in ("stale", "orphaned"):
+                known["stale_takeover_race"] = True
+            else:
+                fails.append({"why": "a running holder's lock file was removed by another process", "init": kind, "pids": pids,
+                              "schedule": evs, "detail": res["foreign_removals"][:3]})
         if res["max_overlap_real"] > 1:
             stats["overlap_real"] += 1
             if kind in ("stale", "orphaned"):
